@@ -119,7 +119,7 @@ func runC19(c C19Case) (fails []string, incon int, classes []string) {
 					maxGap = gap
 				}
 				if err != nil {
-					if maxGap >= K*95/100 {
+					if maxGap >= K*99/100 {
 						o.incon = fmt.Sprintf("scenario %d: own write was late (gap %v of K=%v)", si, gap, K)
 					} else {
 						o.fail = fmt.Sprintf("scenario %d (K=%ds): the connection was closed although every gap between its packets stayed below K (largest %v): %v", si, sc.K, maxGap, err)
@@ -140,6 +140,9 @@ func runC19(c C19Case) (fails []string, incon int, classes []string) {
 			if maxGap >= K*70/100 {
 				o.cls = append(o.cls, "gap>=0.7K")
 			}
+			if maxGap >= K*95/100 {
+				o.cls = append(o.cls, "gap>=0.95K")
+			}
 			if !sc.Silent {
 				// active throughout: still open, every PINGREQ answered
 				pid++
@@ -153,7 +156,7 @@ func runC19(c C19Case) (fails []string, incon int, classes []string) {
 					}
 				}
 				if got != pings {
-					if maxGap >= K*95/100 {
+					if maxGap >= K*99/100 {
 						o.incon = fmt.Sprintf("scenario %d: own write was late", si)
 					} else {
 						o.fail = fmt.Sprintf("scenario %d (K=%ds): %d of %d PINGREQs were answered although every gap stayed below K (largest %v)", si, sc.K, got, pings, maxGap)
@@ -233,9 +236,17 @@ func genC19(t *rapid.T) C19Case {
 		sc := KAScenario{K: rapid.SampledFrom([]int{1, 1, 2}).Draw(t, "k"), Silent: rapid.IntRange(0, 2).Draw(t, "silent") > 0, Feed: rapid.IntRange(0, 2).Draw(t, "feed") == 0}
 		budget := 500 // percent of K spent on gaps at most
 		for j, m := 0, rapid.IntRange(0, 8).Draw(t, "nsteps"); j < m && budget > 0; j++ {
-			st := KAStep{GapPct: rapid.SampledFrom([]int{20, 35, 50, 70, 80, 85}).Draw(t, "gap"), Kind: rapid.SampledFrom([]string{"ping", "ping", "pub0", "pub1", "sub"}).Draw(t, "kind")}
+			st := KAStep{GapPct: rapid.SampledFrom([]int{20, 28, 35, 50, 70, 80, 85, 97}).Draw(t, "gap"), Kind: rapid.SampledFrom([]string{"ping", "ping", "pub0", "pub1", "sub"}).Draw(t, "kind")}
 			budget -= st.GapPct
 			sc.Steps = append(sc.Steps, st)
+			if rapid.IntRange(0, 5).Draw(t, "short-then-long") == 0 && budget > 0 {
+				// irregular activity: a packet shortly after the previous one, then a long
+				// pause that is still shorter than K (together more than 1.2 x K)
+				sc.Steps[len(sc.Steps)-1].GapPct = rapid.SampledFrom([]int{12, 28, 45, 55}).Draw(t, "short")
+				lg := KAStep{GapPct: rapid.SampledFrom([]int{85, 97, 97}).Draw(t, "long"), Kind: "ping"}
+				budget -= lg.GapPct
+				sc.Steps = append(sc.Steps, lg)
+			}
 		}
 		c.Scenarios = append(c.Scenarios, sc)
 	}
